@@ -845,6 +845,69 @@ def o_entry(case, T):
 
 
 # ----------------------------------------------------------------------------- utm alias naming the source's own CRS
+# ----------------------------------------------------------------------------- two CRSs without an authority code
+AUTHLESS = {
+    "sinu": "+proj=sinu +lon_0=0 +x_0=0 +y_0=0 +R=6371007.181 +units=m +no_defs +type=crs",
+    "moll": "+proj=moll +lon_0=0 +x_0=0 +y_0=0 +datum=WGS84 +units=m +no_defs +type=crs",
+    "eqearth": "+proj=eqearth +lon_0=0 +datum=WGS84 +units=m +no_defs +type=crs",
+    "esri_moll": "ESRI:54009",
+}
+
+
+def e_authless(tier):
+    names = sorted(AUTHLESS)
+    for a in names:
+        for b in names:
+            if a == b or {a, b} == {"moll", "esri_moll"}:
+                continue
+            for warm in ("none", "epsg_read_on_both", "epsg_read_on_src", "xr_zeros_on_both"):
+                for entry in ("compute_output_geobox", "to_crs"):
+                    for lonlat in ((20.0, 30.0), (-60.0, -25.0)):
+                        yield {"src": a, "dst": b, "warm": warm, "entry": entry, "lonlat": list(lonlat)}
+
+
+def o_authless(case, T):
+    """'is axis-aligned in the requested CRS and contains the projected position of every source pixel' when neither
+    CRS has an authority code - whatever was looked up on the CRS objects before (the EPSG look-up of such a CRS
+    finds nothing; two nothings are not the same CRS)."""
+    from affine import Affine
+    from odc.geo.crs import CRS
+    from odc.geo.geobox import GeoBox
+    from odc.geo.overlap import compute_output_geobox
+    from pyproj import CRS as P
+    from pyproj import Transformer
+
+    pa, pb = P.from_user_input(AUTHLESS[case["src"]]), P.from_user_input(AUTHLESS[case["dst"]])
+    ca, cb = CRS(AUTHLESS[case["src"]]), CRS(AUTHLESS[case["dst"]])
+    x, y = Transformer.from_crs(4326, pa, always_xy=True).transform(*case["lonlat"])
+    res = 1000.0
+    src = GeoBox((40, 60), Affine(res, 0, round(x / res) * res - 30 * res, 0, -res, round(y / res) * res + 20 * res), ca)
+    if case["warm"] in ("epsg_read_on_both", "epsg_read_on_src"):
+        _ = ca.epsg
+        if case["warm"] == "epsg_read_on_both":
+            _ = cb.epsg
+    elif case["warm"] == "xr_zeros_on_both":
+        from odc.geo.xr import xr_zeros
+
+        xr_zeros(src, dtype="uint8")
+        xr_zeros(GeoBox((2, 2), Affine(res, 0, 0, 0, -res, 0), cb), dtype="uint8")
+    out = compute_output_geobox(src, cb) if case["entry"] == "compute_output_geobox" else src.to_crs(cb)
+    require(out is not src, "request for %s returned the source GeoBox (which is in %s) unchanged (CRS objects warmed by: %s)", case["dst"], case["src"], case["warm"])
+    require(out.crs is not None and P.from_user_input(out.crs.to_wkt()).equals(pb, ignore_axis_order=False) or str(out.crs) == str(cb), "result is in %s, requested %s", str(out.crs)[:50], case["dst"])
+    A = out.affine
+    require(A.b == 0 and A.d == 0, "result not axis aligned: %r", A)
+    tr = Transformer.from_crs(pa, pb, always_xy=True)
+    inv = ~A
+    oh, ow = out.shape
+    for i in range(0, 61, 6):
+        for j in range(0, 41, 4):
+            wx, wy = src.affine * (i, j)
+            px_, py_ = inv * tr.transform(wx, wy)
+            require(-0.011 <= px_ <= ow + 0.011 and -0.011 <= py_ <= oh + 0.011, "source pixel corner (%d,%d) lands at (%.3f, %.3f) outside the %dx%d result (src %s -> %s, warmed by %s)", i, j, px_, py_, oh, ow, case["src"], case["dst"], case["warm"])
+    T.cls("warm:" + case["warm"])
+    T.nontrivial((case["src"], case["dst"], case["warm"], case["entry"]))
+
+
 @st.composite
 def s_utm_other_hemisphere(draw):
     """A raster stored in the UTM zone of the *other* hemisphere (Landsat-style: southern scenes in EPSG:326xx with
@@ -974,6 +1037,7 @@ def o_utm_alias_same(case, T):
 
 
 def build(chk: Check) -> None:
+    chk.sub("authorityless_pairs", o_authless, enum=e_authless, exhaustive_tiers=("quick", "thorough"), budget_s={"quick": 60, "thorough": 120})
     chk.sub("utm_other_hemisphere", o_utm_other_hemisphere, strategy=s_utm_other_hemisphere(), n={"quick": 150, "thorough": 5000}, budget_s={"quick": 40, "thorough": 100})
     chk.sub("utm_alias_same", o_utm_alias_same, strategy=s_utm_alias_same(), n={"quick": 120, "thorough": 4000}, budget_s={"quick": 40, "thorough": 100})
     # cost per case is dominated by the code under test (~25 ms: pure-python densify of the buffered footprint;
